@@ -187,6 +187,10 @@ func env(thorough bool, keep bool) *props.Env {
 		if refClient == nil {
 			self, _ := os.Executable()
 			refClient = props.NewRefClient(self, dir)
+			// by position in this process's sequence of runs, so that a
+			// replay of the sequence (-runlist) meets the same reference
+			// processes of the same age
+			refClient.RecycleEvery = 8
 		}
 		e.Ref = refClient.Ask
 	}
@@ -447,6 +451,10 @@ func doBatch() {
 	}
 	if n := core.ForeignHookCalls.Load(); n > 0 {
 		st.Probes["hook_calls_from_goroutines_started_by_the_library"] = int(n)
+	}
+	if refClient != nil {
+		st.Probes["reference_process_replaced_by_a_young_one"] += refClient.Recycled
+		st.Probes["reference_process_died_and_was_restarted"] += refClient.Restarts
 	}
 	st.HLL = hll.Reg
 	st.WallS = time.Since(start).Seconds()
